@@ -16,10 +16,16 @@
 (* Fix: "dupguard"    - the except branch only pops the entry if it is the failed worker  *)
 (*      "closedguard" - add_worker / attach raise on a closed pool                        *)
 (* What-if switches (must be rejected): ReuseKeys (restart keeps the id), NoReinit (run   *)
-(* does not reset retries), NoRekey (restart_workers leaves a worker under its old id).   *)
+(* does not reset retries), NoRekey (restart_workers leaves a worker under its old id),   *)
+(* EarlyFlag (_close sets _pool_closed before the clean-up instead of at its very end).   *)
+(* "closeint" / "termint": a close / terminate (with-exit) that is cut short by an         *)
+(* exception raised in the closing thread while it joins the clean-up threads              *)
+(* (KeyboardInterrupt, a signal handler raising): the bare except raises SystemExit in     *)
+(* the clean-up threads still running and re-raises; _pool_closed is NOT set (it is set    *)
+(* at the very end of _close), so a later close()/terminate() does the clean-up again.     *)
 EXTENDS Naturals, Sequences, FiniteSets, TLC, PoolLifeProps
 
-CONSTANTS Fix, MaxOps, MaxW, Kinds, Plans, Free, ReuseKeys, NoReinit, NoRekey, Hist
+CONSTANTS Fix, MaxOps, MaxW, Kinds, Plans, Free, ReuseKeys, NoReinit, NoRekey, EarlyFlag, Hist
 
 VARIABLES plan,       \* scenario: [id, force ("none" | "false"), ops]; ops is followed when Free = FALSE
           ws,         \* workers ever created: sequence of [kind, os, stuck, key, owned]
@@ -77,9 +83,10 @@ AddFail ==                                  \* the constructor raises: nothing e
   /\ Simple("addfail", "addfail", "raised", ws, reg)
   /\ UNCHANGED <<plan, ws, reg, closedIds, retries, poolClosed, nextKey, nrun, restarted, pc, todo, graceful>>
 AddDup(o) ==                                \* the new worker's id collides with registered worker o
-  /\ Idle /\ Go("dup:" \o ToString(o)) /\ Len(ws) < MaxW /\ o \in RegW /\ ~poolClosed
-  /\ LET wsx == Append(ws, [NewW(ws[o].kind, ws[o].key, FALSE) EXCEPT !.os = "dead"])      \* worker.terminate() in the except branch
-         regx == IF "dupguard" \in Fix THEN reg ELSE {kw \in reg : kw[1] # ws[o].key}       \* pops *the id*: the original's entry
+  /\ Idle /\ Go("dup:" \o ToString(o)) /\ Len(ws) < MaxW /\ o \in RegW
+  /\ LET wsx == Append(ws, [NewW(ws[o].kind, ws[o].key, FALSE) EXCEPT !.os = "dead"])      \* never created (closed pool) or worker.terminate() in the except branch
+         regx == IF "dupguard" \in Fix \/ (poolClosed /\ "closedguard" \in Fix) THEN reg
+                 ELSE {kw \in reg : kw[1] # ws[o].key}                                     \* pops *the id*: the original's entry
      IN ws' = wsx /\ reg' = regx /\ Simple("dup:" \o ToString(o), "dup", "raised", wsx, regx)
   /\ UNCHANGED <<plan, closedIds, retries, poolClosed, nextKey, nrun, restarted, pc, todo, graceful>>
 
@@ -134,26 +141,30 @@ Restart ==
           /\ Simple("restart", "restart", IF r.ok THEN "ok" ELSE "raised", r.ws, r.reg)
   /\ UNCHANGED <<plan, closedIds, retries, poolClosed, nrun, pc, todo, graceful>>
 
-Kill(w) ==
-  /\ Idle /\ Go("kill:" \o ToString(w)) /\ w \in W /\ IsProc(w) /\ Alive(w) /\ ws[w].owned
+Kill(w) ==                                  \* external SIGKILL (no-op on a dead worker)
+  /\ Idle /\ Go("kill:" \o ToString(w)) /\ w \in W /\ IsProc(w) /\ ws[w].owned /\ (Free => Alive(w))
   /\ LET wsx == [ws EXCEPT ![w].os = "dead"] IN ws' = wsx /\ Simple("kill:" \o ToString(w), "kill", "ok", wsx, reg)
   /\ UNCHANGED <<plan, reg, closedIds, retries, poolClosed, nextKey, nrun, restarted, pc, todo, graceful>>
-Stick(w) ==
-  /\ Idle /\ Go("stick:" \o ToString(w)) /\ w \in RegW /\ Alive(w) /\ ~ws[w].stuck /\ ~poolClosed
-  /\ LET wsx == [ws EXCEPT ![w].stuck = TRUE] IN ws' = wsx /\ Simple("stick:" \o ToString(w), "stick", "ok", wsx, reg)
+Stick(w) ==                                 \* the user enqueues a never-ending input directly; a dead worker refuses it
+  /\ Idle /\ Go("stick:" \o ToString(w)) /\ w \in RegW /\ (Free => (Alive(w) /\ ~ws[w].stuck /\ ~poolClosed))
+  /\ LET wsx == IF Alive(w) THEN [ws EXCEPT ![w].stuck = TRUE] ELSE ws IN
+     ws' = wsx /\ Simple("stick:" \o ToString(w), "stick", IF Alive(w) THEN "ok" ELSE "raised", wsx, reg)
   /\ UNCHANGED <<plan, reg, closedIds, retries, poolClosed, nextKey, nrun, restarted, pc, todo, graceful>>
 
 \* close / terminate / exception in the with-body
+Closing == pc \in {"closing", "closingI"}
 CloseBegin(name) ==
   /\ Idle /\ Go(name)
   /\ IF poolClosed
-     THEN /\ Done(name, Obs(name, "ok", "T", 0, 0, 0, ws, reg)) /\ UNCHANGED <<pc, todo, graceful>>       \* _close returns at once
-     ELSE /\ pc' = "closing" /\ todo' = RegW /\ graceful' = (name = "close")
+     THEN /\ Done(name, Obs(name, "ok", "T", 0, 0, 0, ws, reg)) /\ UNCHANGED <<pc, todo, graceful, poolClosed>>   \* _close returns at once
+     ELSE /\ pc' = (IF name \in {"closeint", "termint"} THEN "closingI" ELSE "closing")
+          /\ todo' = RegW /\ graceful' = (name \in {"close", "closeint"})
+          /\ poolClosed' = EarlyFlag                      \* the code sets the flag at the END of _close (CloseEnd)
           /\ h' = IF Hist THEN Append(h, name) ELSE h
           /\ UNCHANGED <<nops, steps>>
-  /\ UNCHANGED <<plan, ws, reg, closedIds, retries, poolClosed, nextKey, nrun, restarted>>
+  /\ UNCHANGED <<plan, ws, reg, closedIds, retries, nextKey, nrun, restarted>>
 CleanupWorker(w) ==                         \* one thread per worker: close -> wait(timeout) -> terminate(timeout, force)
-  /\ pc = "closing" /\ w \in todo
+  /\ Closing /\ w \in todo
   /\ todo' = todo \ {w}
   /\ ws' = [ws EXCEPT ![w].os = IF ~Alive(w) THEN "dead"
                                 ELSE IF ~ws[w].stuck THEN "dead"                              \* closes down on its own
@@ -162,18 +173,35 @@ CleanupWorker(w) ==                         \* one thread per worker: close -> w
                                 ELSE "dead"]                                                    \* terminate(timeout) with the kind's default force=True
   /\ UNCHANGED <<plan, reg, closedIds, retries, poolClosed, nextKey, nrun, restarted, pc, graceful, nops, steps, h>>
 CloseEnd ==
-  /\ pc = "closing" /\ todo = {}
+  /\ Closing /\ todo = {}
   /\ pc' = "idle" /\ poolClosed' = TRUE
   /\ nops' = nops + 1
   /\ LET o == Obs(IF graceful THEN "close" ELSE "terminate", "ok", "T", 0, 0, 0, ws, reg) IN
      steps' = IF Hist THEN Append(steps, o) ELSE <<o>>
   /\ UNCHANGED <<plan, ws, reg, closedIds, retries, nextKey, nrun, restarted, todo, graceful, h>>
+\* an exception reaches the closing thread while it joins the clean-up threads (pool.py:198-206): the clean-up threads
+\* that are still running are aborted (SystemExit).  Their workers have been close()d already - an idle one ends on
+\* its own - but a stuck one has not been terminated yet.  The exception propagates; the flag is left as it is.
+Interrupt ==
+  /\ pc = "closingI" /\ todo # {}
+  /\ pc' = "idle" /\ todo' = {}
+  /\ \E A \in SUBSET todo :                  \* A = clean-up threads that are aborted; the others run to completion on their own
+       LET wsx == [w \in W |-> IF w \notin todo \/ ~Alive(w) THEN ws[w]
+                              ELSE IF ~ws[w].stuck THEN [ws[w] EXCEPT !.os = "dead"]          \* close()d already
+                              ELSE IF w \in A \/ ws[w].kind = "thread" \/ force = "false" THEN ws[w]
+                              ELSE [ws[w] EXCEPT !.os = "dead"]] IN                           \* its thread went on to terminate()
+       /\ ws' = wsx
+       /\ nops' = nops + 1
+       /\ LET o == Obs(IF graceful THEN "closeint" ELSE "termint", "raised", "T", 0, 0, 0, wsx, reg) IN
+          steps' = IF Hist THEN Append(steps, o) ELSE <<o>>
+  /\ UNCHANGED <<plan, reg, closedIds, retries, poolClosed, nextKey, nrun, restarted, graceful, h>>
 
 Next == \/ \E k \in Kinds : AddOk(k) \/ Attach(k)
         \/ AddFail \/ (\E o \in W : AddDup(o) \/ Kill(o) \/ Stick(o))
         \/ Run(FALSE) \/ Run(TRUE) \/ Restart
         \/ CloseBegin("close") \/ CloseBegin("terminate") \/ CloseBegin("exc")
-        \/ (\E w \in W : CleanupWorker(w)) \/ CloseEnd
+        \/ CloseBegin("closeint") \/ CloseBegin("termint")
+        \/ (\E w \in W : CleanupWorker(w)) \/ CloseEnd \/ Interrupt
 Spec == Init /\ [][Next]_vars
 
 R0 == [scn |-> [force |-> force], obs |-> [steps |-> steps]]
@@ -192,6 +220,8 @@ W_ClosedWithStuck == ~(poolClosed /\ \E w \in W : ws[w].stuck /\ IsProc(w) /\ w 
 W_RestartAfterDeath == ~(restarted # {} /\ closedIds # {} /\ nrun >= 1)
 W_DupRaised == ~(steps # <<>> /\ steps[Len(steps)].op = "dup")
 W_RunAfterPoison == ~(nrun >= 2 /\ closedIds # {} /\ steps # <<>> /\ steps[Len(steps)].op = "run" /\ steps[Len(steps)].outcome = "ok")
+W_InterruptedStuck == ~(AtRest /\ ~poolClosed /\ steps # <<>> /\ steps[Len(steps)].outcome = "raised" /\ steps[Len(steps)].closing = "T"
+                        /\ \E w \in RegW : Alive(w) /\ ws[w].stuck /\ IsProc(w))
 W_ForceFalseSurvivor == ~(poolClosed /\ force = "false" /\ AliveOwned > 0)
 
 \* ---- complete histories for replay (Hist = TRUE) ----
